@@ -15,6 +15,7 @@ import (
 	"encoding/json"
 	"fmt"
 	"sync"
+	"time"
 
 	"verif/core"
 
@@ -49,9 +50,13 @@ func run(r *core.Run) {
 	r.Assume("proxymodel (ref/proxymodel) is a faithful transcription of ECMA-262 §10.1 (ordinary objects) and §10.5 (Proxy internal methods, ES2023 wording)")
 	r.Assume("bare (non-proxy) ordinary objects of the engine behave per spec for the dump operations (Reflect.ownKeys / getOwnPropertyDescriptor / getPrototypeOf / isExtensible) used to observe states - that is property C04's subject")
 	r.Assume("a Proxy has no state of its own besides target, handler and callability, so the state of (proxy, target) is the state of the target")
+	t0 := time.Now()
 	okCorpus := runCorpus(r)
+	t1 := time.Now()
 	okB := runPartB(r)
+	t2 := time.Now()
 	okA := runPartA(r)
+	r.Set("wall_s_corpus_partB_partA", []float64{t1.Sub(t0).Seconds(), t2.Sub(t1).Seconds(), time.Since(t2).Seconds()})
 	r.Exhaustive(okCorpus && okA && okB)
 }
 
@@ -72,6 +77,7 @@ func replay(r *core.Run, raw json.RawMessage) {
 			r.Violation("replay|bad-case", err.Error(), nil)
 			return
 		}
+		c.resolve()
 		eng := newBEngine()
 		sig, what, got, want := evalB(eng, &c)
 		if v, err := eng.rt.RunString("LASTERR && (String(LASTERR.message) + ' ' + String(LASTERR.stack))"); err == nil {
@@ -87,6 +93,7 @@ func replay(r *core.Run, raw json.RawMessage) {
 			r.Violation("replay|bad-case", err.Error(), nil)
 			return
 		}
+		c.resolve()
 		fails := evalA(newAEngine(), &c)
 		fmt.Printf("case: %s target, path %v, proxy chain %s\n", aKinds[c.Kind].name, describePath(c.Kind, c.Path), variant(c.Variant))
 		for _, f := range fails {
@@ -100,6 +107,7 @@ func replay(r *core.Run, raw json.RawMessage) {
 // confirmB re-runs a failing case 5x on fresh engines before it is reported.
 func confirmB(r *core.Run, c *BCase, sig, what string) {
 	c.Part = "B"
+	c.OpName = ops[c.Op].name
 	c.Text = c.describe()
 	if _, seen := confirmed.LoadOrStore(sig, true); seen || r.IsKnown(sig) {
 		r.Violation(sig, what, c) // counted only
